@@ -1,0 +1,13 @@
+//go:build verif
+
+// Contracts of package nut10 for the govc verifier (/verif). Comment-only file,
+// compiled only with the build tag `verif`.
+package nut10
+
+// DeserializeSecret is a deterministic function of the string (JSON parsing):
+// assumed, the decoded value is the spec function nut10.parse.
+//@ func DeserializeSecret
+//@   tags C12 C13
+//@   safety C06 C12
+//@   assumes err == nil <==> nut10.ok(serializedSecret)
+//@   assumes err == nil ==> r0 == nut10.parse(serializedSecret)
